@@ -17,3 +17,5 @@ open Bec2Verif.C19
 #print axioms jacobi_is_jacobi_symbol
 #print axioms p256_private_key_der_roundtrip
 #print axioms oid_roundtrip
+#print axioms explicit_parameters_roundtrip
+#print axioms explicit_finds_named_curves
